@@ -237,6 +237,23 @@ def run(ctx):
                     ctx.violation(dict(kind='damaged-input', source=os.path.basename(src), where='size field of the %s packet header' % which, corruption='size=' + vk, problem=bad, file=keep,
                                        wall_s=r['wall'], limit_s=limit, how='python tools/c15_worker.py <file>  (ReplayParser(file, strict=False).get_info() in a fresh interpreter)'))
                     break
+        # pickled player records that CONTAIN THEMSELVES (legal for pickle; a hostile or damaged record): the walk over the unpickled value ends
+        # (an exception that lenient mode logs, or a result) within the limits, for versions on both sides of every players_info variant
+        from tools import c14
+        for v in [x for x in (wv[-1], '13_2_0', '12_6_0', '0_11_6', '0_10_0') if x in wv][:4]:
+            p = os.path.join(tmp, 'cyclic-%s.wowsreplay' % v)
+            try: bb, vs = battle.build_wows(v, random.Random(6), join=True, roster_extra=c14.cyclic_roster); battle.write_replay(p, 'wowsreplay', {'clientVersionFromXml': vs}, bb.stream())
+            except Exception: continue
+            r = run_worker(p, 25)
+            ctx.case(('cyclic-record', v)); ctx.count('where:self-containing-pickled-record')
+            bad = None
+            if r['outcome'].startswith(('HANG', 'CRASH')) or r['outcome'] == 'exception MemoryError': bad = r['outcome']
+            elif r['maxrss_kb'] > 400000: bad = 'peak resident size %d kB for a %d-byte recording' % (r['maxrss_kb'], os.path.getsize(p))
+            if bad:
+                keep = os.path.join(common.VERIF, 'evidence', 'replays', 'C15-damaged-%d.wowsreplay' % (len(ctx.violations) + 1)); shutil.copy(p, keep)
+                ctx.violation(dict(kind='damaged-input', source='synthetic %s battle' % v, where='pickled player record', corruption='a list and a dict that contain themselves', problem=bad, file=keep,
+                                   wall_s=r['wall'], limit_s=25, how='python tools/c15_worker.py <file>  (ReplayParser(file, strict=False).get_info() in a fresh interpreter)'))
+                break
         # the value bytes of EVERY property update and method call replaced by 0xff bytes (count / length escapes with nothing behind them): each packet
         # fails or decodes to something tiny; a few kB of input stay a matter of milliseconds and megabytes
         for src in (syn, syn2, syn3, syn4):
